@@ -1250,7 +1250,7 @@ def c05_r4_poison(ctx):
                 continue
             for si, fs in enumerate(core.edge_facts(f, bb)):
                 for fa in fs:
-                    if fa.kind == 'place' and '@Err.0' in fa.desc and fa.vals and 'Storage' not in fa.vals:
+                    if fa.kind == 'place' and fa.desc.endswith('@Err.0') and fa.vals and 'Storage' not in fa.vals:
                         storage_other.add((bb, si))
         ctx.must_pass(f, po, start=ic[0] if ic else None, exits='any', extra_cut_edges=e_skip | storage_other, what='a storage error in %s always poisons' % nm)
         n += 1
@@ -4114,3 +4114,192 @@ def state_writer_rules(ctx):
     f = ctx.fn('PageListMut::clear')
     if f is not None:
         call_rule(ctx, 'PageListMut::clear', 'fill', 'clear resets the count', floor=1, exits='any')
+
+
+def _named_consts_used(f):
+    out = set()
+
+    def op(o):
+        if o and o[0] == 'k' and len(o) > 3 and o[3]:
+            out.add(str(o[3]).split('::')[-1])
+    for b in f.blocks:
+        if b['c']:
+            continue
+        for st in b['s']:
+            if st[0] == 'a':
+                for o in _rv_operands(st[2]):
+                    op(o)
+        t = b['t']
+        if t['k'] == 'call':
+            for a in t['a']:
+                op(a)
+    return out
+
+
+def header_codec_rules(ctx):
+    """Writer and reader of the two header records name the same fields: every *_OFFSET (and flag bit) the
+    parser reads is one the serialiser writes, and the other way round."""
+    ctx.set_rule('C19.R6', 'header serialiser and parser agree on the set of fields (offset and flag constants)')
+    pairs = [('DatabaseHeader::to_bytes', 'UnrepairedDatabaseHeader::from_bytes', 10), ('TransactionHeader::to_bytes', 'TransactionHeader::from_bytes', 7)]
+    for w, r, floor in pairs:
+        fw, fr = ctx.fn(w), ctx.fn(r)
+        if fw is None or fr is None:
+            continue
+        keep = lambda n: n.endswith('_OFFSET') or n in ('RECOVERY_REQUIRED', 'TWO_PHASE_COMMIT')
+        sw = {n for n in _named_consts_used(fw) if keep(n)}
+        sr = {n for n in _named_consts_used(fr) if keep(n)}
+        ctx.check(len(sw) >= floor, 'floor|%s|fields' % fw.path, '%s writes at least %d named fields (found %d)' % (w, floor, len(sw)), fw, fw.line)
+        only_r = sorted(sr - sw)
+        only_w = sorted(sw - sr)
+        ctx._ob(not only_r, ctx.sample('agreement', fw, fw.line, 'every field %s reads is written by %s' % (r, w)))
+        if only_r:
+            ctx.violate('agreement|%s|not-written|%s' % (fw.path, ','.join(only_r)), '%s reads %s which %s never writes' % (r, only_r, w), fw, fw.line)
+        ctx._ob(not only_w, ctx.sample('agreement', fr, fr.line, 'every field %s writes is read by %s' % (w, r)))
+        if only_w:
+            ctx.violate('agreement|%s|not-read|%s' % (fr.path, ','.join(only_w)), '%s writes %s which %s never reads' % (w, only_w, r), fr, fr.line)
+    f = ctx.fn('DatabaseHeader::to_bytes')
+    if f is not None:
+        th = ctx.sites(f, 'TransactionHeader::to_bytes', exact=2)
+        for p in th:
+            ctx.must_pass(f, [p], exits='any', what='both commit slots are serialised')
+
+
+def mutator_release_rules(ctx):
+    """Copy-on-write in the B-tree mutator: whenever a replacement page was built for the page being
+    changed, the page it replaces is released (freed if this transaction allocated it, queued otherwise)
+    before the function reports the replacement.  Helpers that only build (and leave the release to their
+    caller) are not listed; the confirmed exceptions are the two insert fast paths that keep the original
+    leaf and add a one-entry sibling."""
+    ctx.set_rule('C06.R12', 'a rebuilt B-tree page releases the page it replaces on every success path')
+    MH = 'MutateHelper'
+    BUILD = ['LeafBuilder::build', 'LeafBuilder::build_split', 'BranchBuilder::build', 'BranchBuilder::build_split', MH + '::finalize_branch_builder',
+             MH + '::build_leaf_except_indexes', MH + '::build_replacement_leaves', PA + '::allocate']
+    REL = [MH + '::conditional_free', PA + '::free', 'Vec::push', PA + '::conditional_free', PA + '::free_if_uncommitted']
+    table = [(MH + '::apply_child_deletion_result', 12), (MH + '::insert_helper', 6), (MH + '::replace_leaf_children', 2), (MH + '::delete_leaf_at_position', 1), (MH + '::delete_leaf_indexes', 1)]
+    n = 0
+    for pat, floor in table:
+        f = ctx.fn(pat)
+        if f is None:
+            continue
+        s_ = core.sym(f)
+        bs = [c for c in f.calls if c.matches(BUILD) and not f.blocks[c.bb]['c']]
+        rel = [c for c in f.calls if c.matches(REL) and not f.blocks[c.bb]['c']]
+        relb = {c.bb for c in rel}
+        kept = 0
+        checked = 0
+        for b in bs:
+            # the keep-the-original fast paths: a builder created for exactly one pair
+            t = s_.operand(b.t['a'][0]) if b.t['a'] else None
+            one = False
+            if t is not None and t[0] == 'call':
+                nc = core.CallSite(f, t[1], f.blocks[t[1]]['t'])
+                if nc.matches('LeafBuilder::new') and len(nc.t['a']) > 2 and nc.t['a'][2][0] == 'k' and str(nc.t['a'][2][2]) == '1':
+                    one = True
+            if one and pat.endswith('insert_helper'):
+                kept += 1
+                continue
+            checked += 1
+            r = core.reach(f, start=(b.bb, len(f.blocks[b.bb]['s'])), cut_blocks=relb | core.error_blocks(f))
+            bad = [rb for rb in f.ret_blocks() if rb in r['term']]
+            ctx._ob(not bad, ctx.sample('must-pass', f, b.line, 'replacement built by %s => original released before return' % b.callee.split('::')[-1]))
+            if bad:
+                path = core.path_lines(f, core.find_path(f, bad[0], cut_blocks=relb | core.error_blocks(f), start=(b.bb, len(f.blocks[b.bb]['s']))))
+                ctx.violate('must-pass|%s|built-not-released|%s' % (f.path, b.callee.split('::')[-1]), 'after %s built a replacement page the function can return successfully without releasing or queueing the page it replaces' % b.callee.split('::')[-1], f, b.line, path)
+        ctx.check(checked >= floor, 'floor|%s|build-sites' % f.path, '%s: %d build sites checked (confirmed floor %d)' % (pat, checked, floor), f, f.line)
+        if pat.endswith('insert_helper'):
+            ctx.check(kept == 2, 'shape|%s|keep-original-paths' % f.path, 'insert_helper has exactly the two confirmed keep-the-original fast paths (found %d)' % kept, f, f.line)
+        n += 1
+    ctx.check(n >= 5, 'floor|mutator-fns', 'mutator functions analysed: %d' % n)
+    # the page released at the tail of apply_child_deletion_result is the branch page being rebuilt
+    f = ctx.fn(MH + '::apply_child_deletion_result')
+    if f is not None:
+        s_ = core.sym(f)
+        gp = [c for c in f.calls if c.matches('PageImpl::get_page_number') or c.matches('Page::get_page_number')]
+        orig = None
+        for c in gp:
+            t = s_.operand(c.t['a'][0])
+            if t == ('arg', 2) or (t[0] == 'place' and t[1] == ('arg', 2)):
+                orig = c if orig is None or c.line < orig.line else orig
+        ctx.check(orig is not None, 'floor|%s|original-page-number' % f.path, 'the number of the page being rebuilt is read', f, f.line)
+        if orig is not None:
+            own = [cpoint(c) for c in f.calls_to(MH + '::conditional_free') if s_.operand(c.t['a'][1]) == ('call', orig.bb)]
+            ctx.check(len(own) >= 3, 'floor|%s|release-original' % f.path, 'the rebuilt branch page itself is released at the three confirmed places (found %d)' % len(own), f, f.line)
+            bn = sorted(ctx.sites(f, 'BranchBuilder::new', floor=1), key=lambda p: p.line)
+            if bn and own:
+                ctx.must_pass(f, own, start=bn[0], exits='success', what='once a replacement branch is being built, the original branch page is released on every success path')
+    # leaf deletion: every success path either edits the uncommitted page in place or releases it
+    for pat in (MH + '::delete_leaf_indexes', MH + '::delete_leaf_at_position'):
+        f = ctx.fn(pat)
+        if f is None:
+            continue
+        rel = [cpoint(c) for c in f.calls if c.matches(REL)]
+        inplace = [cpoint(c) for c in f.calls if c.matches(PA + '::get_page_mut')]
+        ctx.must_pass(f, rel + inplace, exits='success', what='a leaf deletion edits its own uncommitted page in place or releases the page it replaces')
+
+
+def free_verdict_rules(ctx):
+    """`free_if_uncommitted` releases a page only when this transaction allocated it and says so; a caller
+    that does not look at the answer leaves a committed page neither freed nor queued."""
+    ctx.set_rule('C06.R13', 'the verdict of free_if_uncommitted is acted on: a page that was not released is queued on a freed list')
+    n = 0
+    for path, sites in sorted(ctx.facts.callers_of(PA + '::free_if_uncommitted', root=False).items()):
+        for c in sites:
+            f = c.fn
+            if f.blocks[c.bb]['c']:
+                continue
+            n += 1
+            disc = core.is_discarded(f, c.t['d'][0]) if not c.t['d'][1] else False
+            ctx._ob(not disc, ctx.sample('discard', f, c.line, 'result of free_if_uncommitted is used'))
+            if disc:
+                ctx.violate('discard|%s|free_if_uncommitted' % f.path, 'the result of free_if_uncommitted is ignored: a page from an earlier commit is then neither released nor queued for release', f, c.line)
+                continue
+            if c.t['d'] == [0, []]:
+                continue  # returned to the caller (PageAllocator::conditional_free's own wrapper logic is checked below)
+            pushes = {p.bb for p in f.calls if p.matches(['Vec::push', 'Vec::extend', 'Vec::append'])}
+            e_true = set()
+            for bb in range(f.nb):
+                if f.blocks[bb]['t']['k'] != 'sw':
+                    continue
+                for si, fs in enumerate(core.edge_facts(f, bb)):
+                    if any(x.kind == 'call' and x.call is not None and x.call.bb == c.bb and 'true' in x.vals and 'false' not in x.vals for x in fs):
+                        e_true.add((bb, si))
+            tested = bool(e_true)
+            ctx._ob(tested, ctx.sample('guard', f, c.line, 'the verdict is tested'))
+            if not tested:
+                ctx.violate('guard-missing|%s|free_if_uncommitted' % f.path, 'the verdict of free_if_uncommitted is never tested', f, c.line)
+                continue
+            nxt = [m for m in f.calls if m.declared and m.declared.split('::')[-1] == 'next' and 'Iterator' in m.declared]
+            r = core.reach(f, start=(c.bb, len(f.blocks[c.bb]['s'])), cut_edges=e_true, cut_blocks=pushes | core.error_blocks(f))
+            looped = [m for m in nxt if m.bb in r['term']]
+            fin = [rb for rb in f.ret_blocks() if rb in r['term']]
+            ok_ = not looped and not fin
+            ctx._ob(ok_, ctx.sample('must-pass', f, c.line, 'not released => queued'))
+            if not ok_:
+                ctx.violate('must-pass|%s|not-freed-not-queued' % f.path, 'when free_if_uncommitted returns false the page can be left neither released nor queued', f, c.line)
+    ctx.check(n >= 7, 'floor|free_if_uncommitted-sites', 'free_if_uncommitted call sites analysed: %d' % n)
+
+
+def key_compare_rules(ctx):
+    """Sibling agreement over every `Key::compare` implementation of the crate: each component comparison
+    takes its receiver from the first byte string and its operand from the second.  A swapped component
+    is still a total order -- every table keeps working -- but range scans over composite system keys
+    ((transaction, pagination)) then include or exclude the wrong records."""
+    ctx.set_rule('C06.R14', 'every Key::compare compares its first argument with its second in every component (sibling agreement)')
+    n = 0
+    for f in ctx.facts.fn_list:
+        if not (f.path.endswith('::compare') and ' as ' in f.path and f.path.split(' as ')[1].startswith(('types::Key>', 'crate::types::Key>', 'redb::types::Key>'))):
+            continue
+        if f.kind == 'closure':
+            continue
+        cm = [c for c in f.calls if (c.declared or '').split('::')[-1] in ('cmp', 'compare', 'partial_cmp', 'total_cmp') and not f.blocks[c.bb]['c'] and len(c.t['a']) == 2]
+        if not cm:
+            continue
+        n += 1
+        for c in cm:
+            a0 = core.flow_sources(f, c.t['a'][0])[2]
+            a1 = core.flow_sources(f, c.t['a'][1])[2]
+            ok_ = a0 <= {1} and a1 <= {2} and bool(a0) and bool(a1)
+            ctx._ob(ok_, ctx.sample('arg-flow', f, c.line, 'component comparison is (first, second)'))
+            if not ok_:
+                ctx.violate('arg-flow|%s|swapped-component|%d' % (f.path, cm.index(c)), 'a component comparison in this Key::compare does not compare the first key with the second (receiver from args %s, operand from args %s): the order is reversed or mixed for that component' % (sorted(a0), sorted(a1)), f, c.line)
+    ctx.check(n >= 15, 'floor|key-compare-impls', 'Key::compare implementations analysed: %d' % n)
